@@ -107,6 +107,8 @@ FIXED += [
     ("C16", "3e71921", "`substr('hello', 1, 18446744073709551616)` was empty: a length that does not fit the counter dropped the whole result (second audit; lengths of 2^31, 2^64-1, 2^64 and 10^20 are now drawn)", []),
     ("C16", "54517d2", "`log(1000)` printed 2.9999999999999996 and `where log(size) = 3` found no 1000-byte file (ln(x)/ln(10)) (second audit; the reference had used the same quotient and a tolerance - it now demands the exact exponent for exact powers of 2, 10 and 16)", []),
     ("C16", "86bdcbb", "`least(3, 'x')` was 3 while `least('x', 3)` is empty; `greatest(size, 1000, 'abc')` ignored the text: later arguments that are no numbers were skipped (second audit; the reference had skipped them too - an argument of the wrong kind now empties the result wherever it stands)", []),
+    ("C19", "113a181", "`is_hidden` of an archive member was true only at the top level of the archive (`a/.y`, `.hid/`, `a/.b/` were not hidden): `where is_hidden = true` did not filter members like ordinary entries (second audit; C19 has dot-names below directories and an is_hidden filter now)", []),
+    ("C19", "82a9cac", "`select ... from . archives where modified >= accessed` ended the whole search with status 2 (`Can't parse datetime:`) at the first archive member, which has no access time - rows of ordinary entries were lost by merely adding `archives` (second audit, agents C17 and C13; C19 filters now compare two date columns)", []),
     ("C10", "2e125e2", "a flat chain of some 20 000 `or` / `and` conditions (one word per argument) or 17 000 arithmetic operators ended with a stack overflow (SIGSEGV / abort), and `not (a or a ...)` over 3000 conditions took 8 s to parse: the tree of a chain was as deep as the chain is long (second audit; C10 now enumerates flat chains up to the length a command line can have)", []),
     ("C10", "cbb17ce", "`where is_dir = ''`: the empty text literal was accepted as the boolean false (status 0, rows) while every other text that is no boolean is rejected (second audit; '' and ' ' are now among C10's bad booleans, and literals that are no number on numeric columns are a fourth ill-typed kind)", []),
     ("C10", "9b6a0a7", "day('2020-0\u0661-01'): the date pattern matched non-ASCII digits and the integer parse of the capture was unwrapped (found by the eval_total fuzz target after 2e7 executions)", ["date-non-ascii-digit"]),
